@@ -43,11 +43,24 @@ def run(tier):
     for pi, (body, keep) in enumerate(progs):
         src = churn.program(body, keep)
         n = rng.choice([1500, 4000, 12000] if quick else [4000, 20000, 60000])
+        # what happened earlier on the interpreter must not change the pacing: a third of the programs run after a
+        # snippet that failed to compile, after a caught import of a module that does not compile, or after a snippet
+        # that died with an uncaught error
+        before = rng.choice([None, None, None, "compile_error", "broken_import", "uncaught"])
+        steps = [snip(src), ("stats",)]
+        mods = []
+        if before == "compile_error":
+            steps = [snip("var = ;\n")] + steps
+        elif before == "uncaught":
+            steps = [snip("fn boom(n) { if n == 0 { throw [n]; } return boom(n - 1); }\nboom(5);\n")] + steps
+        elif before == "broken_import":
+            src = src.replace("for i in 0..N {", "try { import \"c16broken\" as bb; } catch e { total = 0; }\nfor i in 0..N {", 1)
+            steps = [snip(src), ("stats",)]
+            mods = [("c16broken", "var x = ;\n")]
         for mult in (1, 2):
             cid = "c%d:%d" % (pi, mult)
             meta[cid] = (body, keep, n * mult, src)
-            cases.append(mk_case(cid, [snip(src), ("stats",)],
-                                 {"gc": "default", "trace": 1, "dropcheck": 1},
+            cases.append(mk_case(cid, steps, {"gc": "default", "trace": 1, "dropcheck": 1}, mods,
                                  globals_=[("N", f64_bits(n * mult))]))
     ck.log("%d programs x {n, 2n} iterations" % len(progs))
     results = common.run_batch("hookfast", cases, timeout=1500)
@@ -60,7 +73,7 @@ def run(tier):
         if "abort" in res or common.panics_of(res):
             ck.violation("ChurnRunDied", dict(rp, what=str(res.get("abort") or common.panics_of(res))[:2000]))
             continue
-        st = res["steps"][0]
+        st = [x for x in res["steps"] if x.get("k") == "snip"][-1]
         if st.get("res") != "ok":
             ck.inconclusive.append("churn program failed to run: %s %s" % (body, st.get("msgs")))
             continue
